@@ -494,6 +494,10 @@ func (c *Ctx) c10OpenFinding() {
 }
 
 func runC10(c *Ctx) error {
+	// handwritten programs (shapes that once slipped through), run by the Go toolchain
+	if err := c.runCorpus("C10-programs"); err != nil {
+		return err
+	}
 	c.c10OpenFinding()
 	c.Rep.Rule = "histories of set/delete/get/len/iter/next over pools of 2..12 keys (string, int, float64, bool keys) through the host Value API, compared line by line (answers and the internal ordered key list) with the Lean model, and against a native Go map + the range contract; generated scripts (literals, make, nil map, m[k], op=, delete, comma-ok, len, range with and without mutation) against native expectations; distinct = distinct history/script; non-trivial = more than 5 operations"
 	// corpus: the delete-then-reinsert history that used to visit a key twice
